@@ -44,12 +44,50 @@ def cases_for(rng, tier):
             op["filters"] = ["gzip:1"]
         cases.append({"sb": rng.choice([0, 2, 3]),
                       "ops": [op, {"op": "write", "path": "/m", "val": histgen.rand_data(rng, dt, prod(dims)).hex()}]})
+    # the remaining dataset kinds of the public write API: compound (CreateCompoundDataset, packed and padded members, v1/v3
+    # encodings), array, enum, opaque with tags, object / region references, variable-length; contiguous and chunked
+    for i in range(500 if tier == "quick" else 14000):
+        dims = histgen.rand_shape(rng, maxrank=3, maxelems=120)
+        if rng.random() < 0.4:
+            comp = histgen.rand_compound(rng)
+            op = dict({"op": "mkcompound", "path": "/c%d" % (i % 3), "dims": dims}, **comp)
+            d = dict(dtype="compound", dims=dims, comp=comp, csize=comp["csize"])
+        else:
+            f = histgen.rand_ext_kind(rng)
+            op = dict({"op": "mkds", "path": "/x%d" % (i % 3), "dims": dims}, **f)
+            d = dict(f, dims=dims)
+            if rng.random() < 0.5:
+                ch = histgen.rand_chunk(rng, dims)
+                op["chunk"] = [min(c, x) for c, x in zip(ch, dims)]
+                if rng.random() < 0.3 and not f["dtype"].startswith("vlen:"):
+                    op["filters"] = [x for x in ("shuffle", "gzip:%d" % rng.randint(1, 9), "fletcher32") if rng.random() < 0.5] or ["gzip:1"]
+        ops = [op, histgen.write_op(rng, op["path"], d)]
+        if rng.random() < 0.2:
+            ops.append(histgen.write_op(rng, op["path"], d))
+        if rng.random() < 0.3:
+            ops.append({"op": "hardlink", "path": "/alias", "target": op["path"]})
+        cases.append({"sb": rng.choice([0, 2, 3]), "ops": ops})
     for i in range(300 if tier == "quick" else 5000):   # several datasets, groups and attributes around them
         cases.append({"sb": rng.choice([0, 2, 3]), "ops": histgen.gen_mixed(rng, nops=rng.choice([15, 40]), fail_rate=0.05, resize=False)})
     return cases
 
 
+KNOWN = [
+    dict(id="C01-compound-unsigned-as-signed", match="ReadCompound of /c returns different values",
+         case={"sb": 2, "ops": [{"op": "mkcompound", "path": "/c", "dims": [1], "csize": 4, "enc": "fields", "members": [{"name": "u", "type": "uint32", "off": 0}]},
+                                {"op": "write", "path": "/c", "raw": True, "val": "ffffffff"}]}),
+    dict(id="C01-compound-string-member-not-last", match="member table of compound dataset /c cannot be read",
+         case={"sb": 2, "ops": [{"op": "mkcompound", "path": "/c", "dims": [1], "csize": 8, "enc": "fields",
+                                 "members": [{"name": "s", "type": "string", "size": 4, "off": 0}, {"name": "i", "type": "int32", "off": 4}]},
+                                {"op": "write", "path": "/c", "raw": True, "val": "6162630001000000"}]}),
+]
+
+
 def run(ctx):
-    return histcheck.run(ctx, cases_for(ctx.rng, ctx.tier), "C01", tags={"data", "create", "tree"}, unit_modules=["c01unit"],
+    return histcheck.run(ctx, cases_for(ctx.rng, ctx.tier), "C01", tags={"data", "create", "tree"}, unit_modules=["c01unit"], known=KNOWN,
                          rule_extra="C01 cases: one fully written dataset per file over all element types, ranks 1-4, extents incl. 1/primes/"
-                                    "non-multiples of the chunk extent, chunk shapes, superblock 0/2/3, data with extremes and NaN payloads; plus datasets with 31-100 chunks along one dimension (any position) of rank 1-3.")
+                                    "non-multiples of the chunk extent, chunk shapes, superblock 0/2/3, data with extremes and NaN payloads; plus datasets with 31-100 chunks along one dimension (any position) of rank 1-3; "
+                                    "plus one dataset per file of the extended kinds (compound with 1-5 numeric/string members at packed and padded offsets in v1/v3 encodings, array, enum, "
+                                    "opaque, object/region reference, variable-length; contiguous and chunked/filtered): type description (datatype message decoded independently, compound member table), "
+                                    "shape, raw bytes, ReadCompound values; Read/ReadStrings/ReadCompound must fail or return the written values. Excluded from gating and re-confirmed: "
+                                    "uint32/uint64 compound members above the signed range, string members that are not the last member.")
